@@ -10,7 +10,9 @@ import numpy as np
 
 from .core import Sim
 
-NAMES = ["run", "a", "b", "run-2026-10-01T07:12:17.948", "", "naïve-ü", "x y", "data", "0", "名前"]
+# names include JSON-structure words and metadata key names (a name is just a string to the store)
+NAMES = ["run", "a", "b", "run-2026-10-01T07:12:17.948", "", "naïve-ü", "x y", "data", "0", "名前",
+         "metadata", "actions", "nested", "run_type", "func", "seed", "null", "{}", "a\"b", "data.json", "c"]
 
 
 def _eval_func(*a: Any) -> None:  # repr contains "eval" -> run_type "eval"
